@@ -53,6 +53,88 @@ def isem {κ : Type} (M : List (κ × Nat)) (P : κ → Bool) : Option Nat :=
 /-- the invariant `agg.count = Σ agg.statusCodes` -/
 def countOk (a : EAgg) : Bool := a.count == stTotal a.status
 
+/-- `strings.Trim(url, "./")` on characters -/
+def trimC (l : List Char) : List Char :=
+  let p := fun c : Char => c = '.' || c = '/'
+  ((l.dropWhile p).reverse.dropWhile p).reverse
+
+/-- URL parts as the tree sees them: host labels then path segments -/
+def partsC (u : String) : List (List Char) :=
+  match splitCh '/' (trimC u.toList) with
+  | [] => []
+  | h :: ps => splitCh '.' h ++ ps
+
+/-- F15a class: a URL the tree may refuse (`validateURL`: empty part, `*` before the end; or a literal
+    `{...}` segment whose name can clash with an existing path parameter). -/
+def badUrl (u : String) : Bool :=
+  let ps := partsC u
+  ps.any (fun p => p = []) || (ps.dropLast.any (fun p => p = ['*'])) ||
+  ps.any (fun p => p.head? = some '{' && p.getLast? = some '}')
+
+def hasBadUrl (recs : List Rec) : Bool := (external recs).any fun r => badUrl r.url
+
+/-! ### Equality "as maps" and the laws asked of a URL normaliser -/
+
+/-- Two aggregations hold the same statistics: for EVERY set of keys (given as a predicate) the entries in
+    that set sum up to the same count / sums / per-status counts / min / max.  With `P := (· = k)` this is
+    equality of the entry at `k`; with `P := fun _ => true` equality of the grand totals. -/
+def AggEq (A B : Agg) : Prop :=
+  (∀ P, sem A.endpoints P = sem B.endpoints P) ∧
+  (∀ P, sem A.consumers P = sem B.consumers P) ∧
+  (∀ P, isem A.interceptors P = isem B.interceptors P)
+
+/-- Reference attribution: every record contributes its one-record aggregate to the key it is attributed to. -/
+def bagAgg (f : String → String) (rs : List Rec) : Agg :=
+  { endpoints := rs.map fun r => (keyOf f r, single r)
+    consumers := rs.map fun r => ((consumerOf r.consumer, keyOf f r), single r)
+    interceptors := rs.map fun r => (interceptorOf r.interceptor, r.ts) }
+
+/-- URLs a batch teaches the tree -/
+def urlsOf (rs : List Rec) : List String := (external rs).map (·.url)
+
+/-- The laws under which batching cannot matter.  `T0` is the freshly built tree.
+    They are HYPOTHESES of `batch_invariant`; for the real convergence algorithm they are only tested
+    (and found to fail in the class of finding F15c). -/
+structure Laws {τ : Type} (N : Normaliser τ) (T0 : τ) : Prop where
+  /-- L2: learning is insensitive to batch boundaries -/
+  learn_nil : N.learn T0 [] = T0
+  learn_append : ∀ xs ys, N.learn (N.learn T0 xs) ys = N.learn T0 (xs ++ ys)
+  /-- L1: normalising an already normalised URL of a seen URL under a later tree = normalising the URL itself -/
+  norm_factor : ∀ xs ys u, u ∈ xs →
+    N.norm (N.learn T0 (xs ++ ys)) (N.norm (N.learn T0 xs) u) = N.norm (N.learn T0 (xs ++ ys)) u
+  /-- L3: if `NormalizeTree` signals no convergence, the normal form of every URL seen so far is unchanged -/
+  conv_sound : ∀ xs ys u, u ∈ xs → N.conv (N.learn T0 xs) ys = false →
+    N.norm (N.learn T0 (xs ++ ys)) u = N.norm (N.learn T0 xs) u
+  /-- L0: only syntactically refusable URLs make `NormalizeTree` fail -/
+  fails_only_bad : ∀ T xs, N.fails T xs = true → ∃ u ∈ xs, badUrl u = true
+
+/-! ### Guards of the persistence round trip -/
+
+/-- every endpoint key survives `METHOD:::URL` → `strings.Split` → `parts[0], parts[1]` -/
+def KeysOK (A : Agg) : Prop :=
+  (∀ p ∈ A.endpoints, restoreKey (dumpKey p.1) = p.1) ∧ (∀ p ∈ A.consumers, restoreKey (dumpKey p.1.2) = p.1.2)
+
+/-- Go maps have unique keys -/
+def NodupKeys (A : Agg) : Prop :=
+  (A.endpoints.map (·.1)).Nodup ∧ (A.consumers.map (·.1)).Nodup ∧ (A.interceptors.map (·.1)).Nodup
+
+/-- all timestamps are whole seconds (what the `2006-01-02T15:04:05Z` layout can print) -/
+def TimesAligned (A : Agg) : Prop :=
+  (∀ p ∈ A.endpoints, p.2.minT % 1000 = 0 ∧ p.2.maxT % 1000 = 0) ∧
+  (∀ p ∈ A.consumers, p.2.minT % 1000 = 0 ∧ p.2.maxT % 1000 = 0) ∧
+  (∀ p ∈ A.interceptors, p.2 % 1000 = 0)
+
+/-- the aggregation with every timestamp truncated to the whole second -/
+def floorAgg (A : Agg) : Agg :=
+  { endpoints := A.endpoints.map fun p => (p.1, toMs (toSec p.2))
+    consumers := A.consumers.map fun p => (p.1, toMs (toSec p.2))
+    interceptors := A.interceptors.map fun p => (p.1, p.2 / 1000 * 1000) }
+
+/-- summaries agree up to whole seconds -/
+def SecEq (a b : Sem) : Prop :=
+  a.cnt = b.cnt ∧ a.sd = b.sd ∧ a.st = b.st ∧ (∀ c, a.stc c = b.stc c) ∧
+  a.mn.map (· / 1000) = b.mn.map (· / 1000) ∧ a.mx / 1000 = b.mx / 1000
+
 /-! ### Observations -/
 
 /-- What one run left in the state file (times in whole seconds; `sumDur`/`sumTot` are not observable
@@ -128,26 +210,6 @@ def batchInvariant : List RunObs → Bool
   | o :: rest => rest.all (fun p => sameStats o p) && batchInvariant rest
 
 /-! ### Known defect classes (decidable classifiers on the INPUT) -/
-
-/-- `strings.Trim(url, "./")` on characters -/
-def trimC (l : List Char) : List Char :=
-  let p := fun c : Char => c = '.' || c = '/'
-  ((l.dropWhile p).reverse.dropWhile p).reverse
-
-/-- URL parts as the tree sees them: host labels then path segments -/
-def partsC (u : String) : List (List Char) :=
-  match splitCh '/' (trimC u.toList) with
-  | [] => []
-  | h :: ps => splitCh '.' h ++ ps
-
-/-- F15a class: a URL the tree may refuse (`validateURL`: empty part, `*` before the end; or a literal
-    `{...}` segment whose name can clash with an existing path parameter). -/
-def badUrl (u : String) : Bool :=
-  let ps := partsC u
-  ps.any (fun p => p = []) || (ps.dropLast.any (fun p => p = ['*'])) ||
-  ps.any (fun p => p.head? = some '{' && p.getLast? = some '}')
-
-def hasBadUrl (recs : List Rec) : Bool := (external recs).any fun r => badUrl r.url
 
 /-- F15b class: an endpoint key that does not survive `METHOD:::URL` → split (`:::` inside method or URL) -/
 def hasDelim : List Char → Bool
